@@ -52,11 +52,53 @@ var fullPlan = simio.Plan{TruncAt: -1, ErrAt: -1}
 
 // genCodecOp draws an operation and its private input.
 func genCodecOp() codecOp {
-	nk := 10
+	nk := 12
 	if len(registry.Types) == 0 {
-		nk = 6
+		nk = 8
 	}
 	switch ch("c18.op", nk) {
+	case 6:
+		// random-access request API: DecodeRequest + the responder it returns
+		req := genRequest()
+		b := req.encode()
+		reply := genVal(ref.TStruct, 0, genOpts{maxDepth: 2})
+		return codecOp{"DecodeRequest+EncodeResponse", func() string {
+			return resultOf(func() (string, error) {
+				v, resp, err := tbinary.Default.DecodeRequest(wire.EnvelopeType(req.Type), simio.NewReaderAt(b, fullPlan))
+				if err != nil {
+					return "", err
+				}
+				body, err := refwire.Force(v)
+				if err != nil {
+					return "", err
+				}
+				w := simio.NewWriter(-1)
+				if err := resp.EncodeResponse(refwire.ToWire(reply), wire.Reply, w); err != nil {
+					return "", err
+				}
+				return fmt.Sprintf("%x | %x", ref.Encode(nil, body), w.Buf), nil
+			})
+		}}
+	case 7:
+		// decode lazily, then force through the library's own walker
+		t := genType()
+		b := ref.Encode(nil, genVal(t, 0, genOpts{maxDepth: 3}))
+		if simrt.Flip("c18.mutate", 0.3) {
+			b, _ = mutate(b, nil, 0)
+		}
+		return codecOp{"Decode+EvaluateValue", func() string {
+			return resultOf(func() (string, error) {
+				w, err := tbinary.Default.Decode(simio.NewReaderAt(b, fullPlan), wire.Type(t))
+				if err != nil {
+					return "", err
+				}
+				// EvaluateValue closes every lazy container it walks: the value is spent afterwards
+				if err := wire.EvaluateValue(w); err != nil {
+					return "", err
+				}
+				return "evaluated", nil
+			})
+		}}
 	case 5:
 		// Skip through the stream reader, seekable or not
 		t := genType()
